@@ -43,6 +43,7 @@ pub const EXTRA: &[(&str, &str)] = &[
 pub fn extra_programs(_tier: Tier) -> Vec<(String, String)> {
     let mut v: Vec<(String, String)> = EXTRA.iter().map(|(n, c)| (format!("extra:{n}"), c.to_string())).collect();
     v.extend(divergence_family());
+    v.extend(specialization_family());
     v
 }
 
@@ -97,6 +98,51 @@ pub fn divergence_family() -> Vec<(String, String)> {
             let tail = if fn_ == "break-value" { "" } else { "; i" };
             let code = format!("{PRELUDE}fn f(a: u8) -> u8 {{ let mut i = 0_u8; loop {{ i += 1; if i == a % 5 + 4 {{ break{}; }} let _y: u8 = {{ {body} }}; }}{tail} }}\n", if fn_ == "break-value" { " i" } else { "" });
             out.push((format!("extra:diverge:{fn_}:{pn}"), code));
+        }
+    }
+    out
+}
+
+/// Call specialization: a recursive (never inlined) function that is much cheaper for `mode == 0` takes an
+/// aggregate (struct, tuple, fixed-size array) whose members become known in two steps - some in a small wrapper
+/// (inlined into its caller), the rest at the caller - so that an already specialized call is specialized again.
+/// Every split of {a, b} between "known in the wrapper", "known at the caller" and "run-time value"; the function
+/// is asymmetric in a and b, so any mix-up of the members shows in the result.
+pub fn specialization_family() -> Vec<(String, String)> {
+    let kinds: [(&str, &str, &str, &str); 3] = [
+        ("struct", "#[derive(Drop, Copy)]\nstruct P { mode: felt252, a: felt252, b: felt252 }\n", "P", "P { mode: $m, a: $a, b: $b }"),
+        ("tuple", "", "(felt252, felt252, felt252)", "($m, $a, $b)"),
+        ("array", "", "[felt252; 3]", "[$m, $a, $b]"),
+    ];
+    let mut out = vec![];
+    for (kn, decl, ty, ctor) in kinds {
+        let open = match kn {
+            "struct" => "let P { mode, a, b } = p;",
+            "tuple" => "let (mode, a, b) = p;",
+            _ => "let [mode, a, b] = p;",
+        };
+        let mk = |m: &str, a: &str, b: &str| ctor.replace("$m", m).replace("$a", a).replace("$b", b);
+        let f = format!(
+            "{decl}fn f(p: {ty}, n: felt252) -> felt252 {{\n    {open}\n    if n == 0 {{ return a - b * 3; }}\n    if mode == 0 {{ f(p, n - 1) + 1 }} else {{\n        let x = f({}, n - 1);\n        let y = f({}, n - 1);\n        x * y + x + y\n    }}\n}}\n",
+            mk("mode - 1", "a * 3", "b * 5"),
+            mk("mode - 1", "a * 7 + x", "b * 11")
+        );
+        // wrapper-known in {none, a, b}; caller-known subsets of the rest
+        for wk in ["", "a", "b"] {
+            let rest: Vec<&str> = ["a", "b"].into_iter().filter(|m| *m != wk).collect();
+            for mask in 0..(1u32 << rest.len()) {
+                let ck: Vec<&str> = rest.iter().enumerate().filter(|(i, _)| mask & (1 << i) != 0).map(|(_, m)| *m).collect();
+                // the wrapper's parameters: the members it does not know
+                let gparams: Vec<String> = rest.iter().map(|m| format!("{m}: felt252")).collect();
+                let ga = if wk == "a" { "5" } else { "a" };
+                let gb = if wk == "b" { "7" } else { "b" };
+                let g = format!("fn g({}{}n: felt252) -> felt252 {{ f({}, n) }}\n", gparams.join(", "), if gparams.is_empty() { "" } else { ", " }, mk("0", ga, gb));
+                // the caller: known members are literals, the others come from x / y
+                let arg_of = |m: &str| -> String { if ck.contains(&m) { if m == "a" { "9".into() } else { "4".into() } } else if m == "a" { "x".into() } else { "y".into() } };
+                let gargs: Vec<String> = rest.iter().map(|m| arg_of(m)).collect();
+                let h = format!("fn h(x: felt252, y: felt252, k: u8) -> felt252 {{ g({}{}(k % 3).into()) }}\n", gargs.join(", "), if gargs.is_empty() { "" } else { ", " });
+                out.push((format!("extra:spec:{kn}:wrapper-knows[{wk}]:caller-knows[{}]", ck.join(",")), format!("{f}{g}{h}")));
+            }
         }
     }
     out
